@@ -509,6 +509,8 @@ def _check_doc1(root, P):
             args = pc.stroke
             if not (len(args) >= 7 and args[0] == "round" and args[1] == "miter" and args[2] == 2 and args[3] == 4 and args[5] in ([], ()) and args[6] == 0):
                 P("stroke-args", f"Skia is asked to stroke with {args}; the shape's cascade gives cap=round (inherited), join=miter, width=2, miterlimit=4, no dashes")
+            elif abs(Fraction(args[4]) - Fraction(1, 100)) > Fraction(1, 10 ** 9):
+                P("stroke-args", f"the stroker tolerance is {float(Fraction(args[4]))}; the document (viewBox 10 x 10) has tolerance 0.01")
             if n.attrib.get("fill") != "blue":
                 P("stroke-args", f"the stroke piece is filled with {n.attrib.get('fill')}, the stroke paint is blue")
         if n.parent is None or n.parent.local() != "g":
@@ -753,8 +755,8 @@ def check_clip_to_viewbox(repo: Repo, rep: Report, rule: str):
     probs: List[str] = []
     n = 0
     for vb, boxes, expect in [
-        ("0 0 10 10", {"in": (2, 2, 4, 4), "out": (20, 20, 30, 30), "cut": (5, 5, 15, 15), "left": (-5, 1, 5, 2), "exact": (0, 0, 10, 10)},
-         {"in": None, "cut": (5, 5, 5, 5), "left": (0, 1, 5, 1), "exact": None}),
+        ("0 0 10 10", {"in": (2, 2, 4, 4), "out": (20, 20, 30, 30), "cut": (5, 5, 15, 15), "left": (-5, 1, 5, 2), "exact": (0, 0, 10, 10), "tall": (2, 5, 4, 15), "wide": (5, 2, 15, 4)},
+         {"in": None, "cut": (5, 5, 5, 5), "left": (0, 1, 5, 1), "exact": None, "tall": (2, 5, 2, 5), "wide": (5, 2, 5, 2)}),
         ("-50 -50 100 100", {"in": (-40, -40, 40, 40), "cut": (40, 40, 60, 60), "out": (60, 0, 70, 10), "neg": (-60, -60, -40, -40)},
          {"in": None, "cut": (40, 40, 10, 10), "neg": (-50, -50, 10, 10)}),
     ]:
@@ -823,7 +825,7 @@ def check_clip_to_viewbox(repo: Repo, rep: Report, rule: str):
         u = list(dict.fromkeys(probs))
         rep.fail(rule, F, "clip_to_viewbox on schematic documents", f"{len(u)} deviations; first: {u[0]}", svg, fn)
     else:
-        rep.ok(rule, F, f"2 view boxes (one with negative origin), 9 shapes by bounding box position, {n} paths: outside dropped, inside untouched, straddling intersected with the visible rectangle under (fill-rule, nonzero)", True)
+        rep.ok(rule, F, f"2 view boxes (one with negative origin), 11 shapes by bounding box position, {n} paths: outside dropped, inside untouched, straddling intersected with the visible rectangle under (fill-rule, nonzero)", True)
 
 
 # =========================================================================================== reference render list
@@ -1882,3 +1884,113 @@ def check_reference_cycles(repo: Repo, rep: Report, rule: str):
         rep.fail(rule, F, "documents with cyclic or dangling references", f"{len(u)} of {len(_ref_docs())} documents: {u[0]}", svg, svg.func("SVG.topicosvg"))
     else:
         rep.ok(rule, F + " [reference cycles]", f"{len(_ref_docs())} documents with use / clip-path / gradient-template cycles and missing targets, {n} runs: each ends (result or exception)", True)
+
+
+# =========================================================================================== pruning of invisible content
+def check_prune(repo: Repo, rep: Report, rules: Dict[str, str]):
+    """rules: 'shapes' (remove_unpainted_shapes removes exactly the shapes that cannot paint under the paint the cascade
+    gives them), 'subpaths' (remove_empty_subpaths drops exactly the subpaths that cannot paint under the path's own paint),
+    'area' (the area question is asked for the shape's own geometry under its own fill rule)"""
+    from sa.sym import method_of
+    svg = repo["svg"]
+    st = repo["svg_types"]
+    probs = {"shapes": [], "subpaths": [], "area": []}
+    asked = []
+
+    def area(g):
+        t = repr(g)
+        return 0 if ("(50, 50)" in t or "(60, 60)" in t) else 7
+
+    def tri(i):
+        return pd(("M", (i, i)), ("L", (i + 2, i)), ("L", (i + 2, i + 2)), ("Z", ()))
+
+    def flat(i):
+        return pd(("M", (i, i)), ("L", (i + 1, i + 1)))
+
+    def doc():
+        kids = [
+            El("path", {"id": "painted", "d": tri(1)}), El("path", {"id": "flat", "d": flat(50)}),
+            El("path", {"id": "flat-stroked", "d": flat(60), "stroke": "blue"}),
+            El("g", {"stroke": "green", "id": "gs"}, [El("path", {"id": "flat-inherits-stroke", "d": flat(60), "fill": "none"}), El("path", {"id": "sibling", "d": tri(5)})]),
+            El("g", {"display": "none", "id": "gd"}, [El("path", {"id": "hidden-by-group", "d": tri(9)}), El("path", {"id": "hidden2", "d": tri(12)})]),
+            El("path", {"id": "transparent", "d": tri(15), "opacity": "0"}),
+            El("path", {"id": "no-fill", "d": tri(18), "fill": "none"}),
+            El("path", {"id": "evenodd", "d": tri(21), "fill-rule": "evenodd"}),
+            El("path", {"id": "moves", "d": pd(("M", (1, 1)), ("M", (2, 2))), "stroke": "red"}),
+            El("rect", {"id": "rect", "width": "3", "height": "2"}),
+            El("path", {"id": "faint", "d": tri(24), "opacity": "0.004", "fill-opacity": "0.5"}),
+        ]
+        return El("svg", {"viewBox": "0 0 100 100"}, kids, name="root")
+
+    want_left = ["painted", "flat-stroked", "flat-inherits-stroke", "sibling", "evenodd", "rect", "faint"]
+
+    def extra(it):
+        base = it.hooks[("svg_pathops", "path_area")]
+
+        def pa(i, a, k):
+            asked.append((repr(a[0]), k.get("fill_rule", a[1] if len(a) > 1 else None)))
+            return base(i, a, k)
+        it.hooks[("svg_pathops", "path_area")] = pa
+
+    F = "svg.SVG.remove_unpainted_shapes"
+    rep.saw(F, "svg_types.SVGShape.might_paint", "svg_types.SVGPath.remove_empty_subpaths")
+    for inplace in (True, False):
+        outs = ok_outcomes(run(repo, "SVG.remove_unpainted_shapes", lambda: ([make_svg(doc())], {"inplace": inplace}), setup_extra=extra, area=area), F)
+        for o in outs:
+            if o.raised:
+                probs["shapes"].append(f"raises {o.raised} ({o.raise_msg})")
+                continue
+            res = o.value.f["svg_root"] if isinstance(o.value, Rec) else None
+            if res is None:
+                probs["shapes"].append("remove_unpainted_shapes does not return an SVG")
+                continue
+            left = [str(n.attrib.get("id")) for n in _paths_under(res)]
+            if left != want_left:
+                gone = [i for i in want_left if i not in left]
+                kept = [i for i in left if i not in want_left]
+                probs["shapes"].append(f"shapes {gone} were removed although they paint (own or inherited stroke / area > 0) and {kept} were kept although they cannot paint"
+                                       if gone or kept else f"order changed: {left}")
+            if not inplace and [str(n.attrib.get("id")) for n in _paths_under(o.args[0].f["svg_root"])] != [str(n.attrib.get("id")) for n in _paths_under(doc())]:
+                probs["shapes"].append("the copying form modifies the receiver")
+    eo = [r for g, r in asked if "(21, 21)" in g]
+    if eo and any(r != "evenodd" for r in eo):
+        probs["area"].append(f"the area of an evenodd shape is asked under rule {sorted(set(map(str, eo)))}")
+    if not asked:
+        probs["area"].append("no area question reaches the engine")
+    # ---- subpaths
+    F2 = "svg_types.SVGPath.remove_empty_subpaths"
+    from sa.pathsem import new_path
+    sub = [("M", (1, 1)), ("L", (3, 1)), ("L", (3, 3)), ("Z", ()), ("M", (50, 50)), ("L", (51, 51)), ("M", (8, 8)), ("M", (1, 1)), ("L", (3, 1)), ("L", (3, 3)), ("Z", ()), ("M", (60, 60)), ("L", (61, 60))]
+    for stroke, want in (("none", [0, 7]), ("blue", [0, 4, 7, 11])):
+        def build(stroke=stroke):
+            return ([new_path(repo, [(c, tuple(a)) for c, a in sub], stroke=stroke, stroke_width=1, fill="black", opacity=1.0, fill_opacity=1.0, stroke_opacity=1.0, display="inline", style="",
+                              fill_rule="nonzero", clip_rule="nonzero")], {})
+        fn = method_of(repo, "svg_types", "SVGPath", "remove_empty_subpaths")
+
+        def setup(it):
+            from sa.machine import install_machine
+            install_machine(it, area=area)
+
+        from sa.sym import explore
+        for o in explore(repo, fn, [], fresh_args=build, setup=setup, max_paths=64):
+            if o.undecided:
+                raise AnalysisError(f"{F2}: abstract machine cannot interpret this code: {o.undecided}")
+            if o.raised:
+                probs["subpaths"].append(f"stroke={stroke}: raises {o.raised} ({o.raise_msg})")
+                continue
+            d = o.value.f.get("d") if isinstance(o.value, Rec) else None
+            got = [c for c in (d.cmds if isinstance(d, PathData) else [])]
+            starts = [tuple(a) for c, a in got if c in ("M", "m")]
+            exp = [tuple(sub[i][1]) for i in want]
+            if starts != exp:
+                probs["subpaths"].append(f"stroke={stroke}: subpaths starting at {starts} survive; with this paint the ones that can paint start at {exp} "
+                                         "(a repeated contour is kept, a zero-area contour is kept only when a stroke paints it, a lone move is dropped)")
+    what = {"shapes": "removal of unpainted shapes", "subpaths": "removal of empty subpaths", "area": "area question"}
+    for k, rid in rules.items():
+        Fk = F2 if k == "subpaths" else F
+        mod = st if k == "subpaths" else svg
+        if probs[k]:
+            u = list(dict.fromkeys(probs[k]))
+            rep.fail(rid, Fk, what[k], f"{len(u)} deviations; first: {u[0]}", mod, mod.functions.get(Fk.split(".", 1)[1]))
+        else:
+            rep.ok(rid, Fk + f" [{what[k]}]", "schematic document (painted, zero-area, own / inherited stroke, display:none group, transparent, unfilled, moves only) and a 5-contour path, with and without stroke: exactly the unpaintable parts go", True)
